@@ -145,6 +145,12 @@ pub fn run(tier: &str, seed: u64, dir: &str) {
             sink.case(&op, &eval(&op), "device-restore", true);
             let op = format!("C20 nbdev {} {} - 0 100 ; sess {} {} {} ; snap ; nsend 1 0 aa ; nradio txdone 1000 ; ntimeout ; ntimeout ; ntimeout ; ntimeout ; snap ; nsend 2 1 bbcc ; snap", region, 200 + k, DEVADDR, up, down);
             sink.case(&op, &eval(&op), "device-restore", true);
+            // the same session saved after a CONFIRMED uplink (stored flag set, ADR counter running)
+            let cnt = [0u32, 1, 63, 64, 200][k % 5];
+            let op = format!("C20 adev {} {} - 15 40 {} 57 ; sess {} {} {} 1 {} ; snap ; asend 1 0 aa |  ; snap ; asend 2 1 bbcc |  ; snap", region, 300 + k, k % 2, DEVADDR, up, down, cnt);
+            sink.case(&op, &eval(&op), "device-restore", true);
+            let op = format!("C20 nbdev {} {} - 0 100 ; sess {} {} {} 1 {} ; snap ; nsend 1 0 aa ; nradio txdone 1000 ; ntimeout ; ntimeout ; ntimeout ; ntimeout ; snap ; nsend 2 1 bbcc ; snap", region, 400 + k, DEVADDR, up, down, cnt);
+            sink.case(&op, &eval(&op), "device-restore", true);
         }
     }
     // structurally mutated documents
